@@ -8,9 +8,10 @@
    QFT at matrix level, ALL n >= 1: [qft_ok_state_vector] / [qft_ok_complex] -- applying the gate matrices
    (Base/Mat.v embed, mmul) of the ladder one after the other to the basis column |x> gives the DFT column.
    The product-state rules [pstep] are no longer trusted: [pstep_rules_agree_with_matrices].
-   What remains outside: (A B) v = A (B v) for the list matrices (so the statement is about state-vector
-   simulation, not about the product matrix circ_mat), and that the real gate matrices are
-   H = [[h,h],[h,-h]], CU1 = diag(1,1,1,phi), SWAP: checked per run by TrigMat obligations (k <= 6) and numerically.
+   [qft_ok] / [qft_ok_complex_matrix]: the same for the PRODUCT matrix circ_mat (QFT n) of Base/Mat.v -- its
+   column x is the DFT column, for every n >= 1 and every x (matrix associativity proved in ProofsAssoc.v).
+   What remains outside: that the real gate matrices are H = [[h,h],[h,-h]], CU1 = diag(1,1,1,phi), SWAP --
+   proved per run by TrigMat obligations on the traced matrices (k <= 6), compared numerically beyond.
 
    NOT PROVED (named honestly):
    - ehrlich_enumerates for all n (here: every 1 <= k < n <= 10, by computation);
@@ -18,7 +19,7 @@
      covered by the data-level tests of the harness, tolerance 1e-10). *)
 From Coq Require Import List Bool Arith Lia Ring ZArith Reals.
 From Coquelicot Require Import Complex.
-From QV Require Import Base.Mat Base.Cis C20.Model C20.Proofs C20.ProofsQFT C20.ProofsPS C20.ProofsQFTMat C20.QFTComplex.
+From QV Require Import Base.Mat Base.Cis C20.Model C20.Proofs C20.ProofsQFT C20.ProofsPS C20.ProofsQFTMat C20.QFTComplex C20.ProofsAssoc.
 Import ListNotations.
 
 (* ---------------------------------------------------------------- comp_basis_encoder (all n, all bit strings) *)
@@ -127,6 +128,39 @@ Theorem qft_ok_complex : forall x : bits, let n := length x in
   = col C (bvec C n (fun y => Cmult (tpow C (RtoC 1) Cmult hC n) (ephase n (qphase n x 0 * qphase n y 0)))).
 Proof. exact qft_matrix_column_C. Qed.
 Print Assumptions qft_ok_complex.
+
+(* qft_ok: column x of the product matrix circ_mat(QFT n) is the DFT column -- all n >= 1, all x *)
+Theorem qft_ok :
+  forall (T : Type) (t0 t1 : T) (tadd tmul tsub : T -> T -> T) (topp : T -> T),
+  ring_theory t0 t1 tadd tmul tsub topp (@eq T) ->
+  forall (h : T) (e : nat -> T),
+  e 0 = t1 -> (forall a b, e (a + b) = tmul (e a) (e b)) ->
+  forall x : bits, let n := length x in
+  1 <= n -> e (2 ^ (n - 1)) = topp t1 ->
+  mmul (KT T t0 t1 tadd tmul)
+       (circ_mat (KT T t0 t1 tadd tmul) n (map (to_gapp T t0 t1 topp h e n) (qft n true)))
+       (col T (bvec T n (fun c => if beqb x c then t1 else t0)))
+  = col T (bvec T n (fun y => tmul (tpow T t1 tmul h n) (e (qphase n x 0 * qphase n y 0)))).
+Proof. exact qft_circ_mat_column. Qed.
+Print Assumptions qft_ok.
+
+Theorem qft_ok_complex_matrix : forall x : bits, let n := length x in
+  1 <= n ->
+  mmul (KT C (RtoC 0) (RtoC 1) Cplus Cmult)
+       (circ_mat (KT C (RtoC 0) (RtoC 1) Cplus Cmult) n
+                 (map (to_gapp C (RtoC 0) (RtoC 1) Copp hC (ephase n) n) (qft n true)))
+       (col C (bvec C n (fun c => if beqb x c then RtoC 1 else RtoC 0)))
+  = col C (bvec C n (fun y => Cmult (tpow C (RtoC 1) Cmult hC n) (ephase n (qphase n x 0 * qphase n y 0)))).
+Proof.
+  intros x n Hn.
+  apply (qft_circ_mat_column C (RtoC 0) (RtoC 1) Cplus Cmult Cminus Copp C_ring hC (ephase n)
+                             (ephase_0 n) (ephase_add n) x Hn (ephase_half n Hn)).
+Qed.
+Print Assumptions qft_ok_complex_matrix.
+
+(* the matrices behind [to_gapp]: non-vacuity / readability *)
+Example to_gapp_H : to_gapp Z 0%Z 1%Z Z.opp 7%Z (fun _ => 1%Z) 3 (QH 1) = ([], [1], [[7; 7]; [7; -7]]%Z).
+Proof. reflexivity. Qed.
 
 Theorem qft_cu1_phase : forall n k, k < n -> ephase n (2 ^ (n - 1 - k)) = cis (PI / 2 ^ k).
 Proof. exact ephase_cu1. Qed.
